@@ -102,6 +102,8 @@ func genFaulty(r *simrt.RNG, tier string, variant int, prop string) Plan {
 		}
 		if op.Kind == "call" && r.Bool(0.15) {
 			op.Kind = "call-noctx"
+		} else if op.Kind == "call" && r.Bool(0.12) {
+			op.Kind = "call-retryfalse" // explicitly tagged retry:"false": an untagged call in every respect
 		}
 		if client > 0 {
 			op.Kind = Pick(r, []string{"call", "notify", "call"})
@@ -415,7 +417,7 @@ func checkAtMostOnce(w *World, p *Plan) {
 			continue
 		}
 		switch t.Kind {
-		case "call", "alias", "call-noctx":
+		case "call", "alias", "call-noctx", "call-retryfalse":
 			if t.Execs > 1 {
 				e.Violate("C04.at-most-once", "untagged call tok=%d was executed %d times by the server", t.ID, t.Execs)
 			}
@@ -508,7 +510,7 @@ func checkHealing(w *World, p *Plan, c0 ClientPlan, faultStep uint64) {
 				e.Violate("C05.b-retry-rides-out", "retry-tagged tok=%d returned the connection error instead of a genuine result: %v", t.ID, t.RetErr)
 			}
 		}
-		if (op.Kind == "call" || op.Kind == "call-noctx") && t.RetErr != nil && op.Client == 0 {
+		if (op.Kind == "call" || op.Kind == "call-noctx" || op.Kind == "call-retryfalse") && t.RetErr != nil && op.Client == 0 {
 			// the connection error proper (the library's "websocket connection closed"
 			// response); errors of a closed / dead client object are not constrained
 			var ce *jsonrpc.RPCConnectionError
